@@ -1,10 +1,11 @@
 //! C12 ops: Bitcoin Signed Message.
 //!   bsm.sign key compressed msg                  -> compact signature (65 bytes)
-//!   bsm.sign_k key compressed nonce msg          -> compact signature
+//!   bsm.sign_k key compressed nonce ncompressed msg prefix -> compact signature; verify against own address
 //!   bsm.compact_verify key compressed msg prefix -> compact; verify; verify after compact round trip;
 //!                                                   plain ECDSA verify_digest(Sha256d) over a preimage built HERE
 //!   bsm.verify msg compact prefix hash           -> 1 | ERR
-//!   bsm.tamper key compressed msg prefix kind i  -> verify after tampering (m, s, h, c, k) or re-prefixing (p)
+//!   bsm.tamper key compressed msg prefix kind i  -> verify;is_valid_message;is_valid_bitcoin_message after tampering
+//!                                                   (m, s, h, c, k) or re-prefixing (p)
 use crate::util::*;
 use bsv::{ChainParams, P2PKHAddress, PrivateKey, Signature, SigningHash, BSM, ECDSA};
 
@@ -120,11 +121,15 @@ pub fn run(op: &str, args: &[String]) -> Option<String> {
             let kb = need!(arg_bytes(args, 0));
             let c = need!(arg_flag(args, 1));
             let nb = need!(arg_bytes(args, 2));
-            let msg = need!(arg_bytes(args, 3));
+            let nc = need!(arg_flag(args, 3));
+            let msg = need!(arg_bytes(args, 4));
+            let p = need!(arg_byte(args, 5));
             let k = lib!(PrivateKey::from_bytes(&kb)).compress_public_key(c);
-            let e = lib!(PrivateKey::from_bytes(&nb));
+            // the nonce key carries its own compression marker, which must not leak into the signature
+            let e = lib!(PrivateKey::from_bytes(&nb)).compress_public_key(nc);
             let sg = lib!(BSM::sign_message_with_k(&k, &e, &msg));
-            format!("OK:{}", hex::encode(sg.to_compact_bytes(None)))
+            let a = some!(own_address(&k, p));
+            format!("OK:{};{}", hex::encode(sg.to_compact_bytes(None)), show_v(BSM::verify_message(&msg, &sg, &a)))
         }
         "bsm.compact_verify" => {
             let kb = need!(arg_bytes(args, 0));
@@ -142,7 +147,9 @@ pub fn run(op: &str, args: &[String]) -> Option<String> {
             };
             let pk = lib!(k.to_public_key());
             let v3 = show_v(ECDSA::verify_digest(&preimage(&msg), &pk, &sg, SigningHash::Sha256d));
-            format!("OK:{};{};{};{}", hex::encode(cb), v1, v2, v3)
+            let i1 = BSM::is_valid_message(&msg, &sg, &a) as u8;
+            let i2 = a.is_valid_bitcoin_message(&msg, &sg) as u8;
+            format!("OK:{};{};{};{};{};{}", hex::encode(cb), v1, v2, v3, i1, i2)
         }
         "bsm.verify" => {
             let msg = need!(arg_bytes(args, 0));
@@ -164,32 +171,29 @@ pub fn run(op: &str, args: &[String]) -> Option<String> {
             let k = lib!(PrivateKey::from_bytes(&kb)).compress_public_key(c);
             let sg = lib!(BSM::sign_message(&k, &msg));
             let a = some!(own_address(&k, p));
-            match kind.as_str() {
-                "m" => show_verify(BSM::verify_message(&flip_bit(&msg, idx), &sg, &a)),
-                "s" => {
-                    let sg2 = lib!(Signature::from_compact_bytes(&flip_bit(&sg.to_compact_bytes(None), idx % 520)));
-                    show_verify(BSM::verify_message(&msg, &sg2, &a))
-                }
-                "h" => {
-                    let a2 = some!(make_addr(p, &flip_bit(&a.to_pubkey_hash(), idx % 160)));
-                    show_verify(BSM::verify_message(&msg, &sg, &a2))
-                }
-                "c" => {
-                    let a2 = some!(own_address(&k.compress_public_key(!c), p));
-                    show_verify(BSM::verify_message(&msg, &sg, &a2))
-                }
+            // (message, signature, address) after tampering; a signature that no longer parses counts as rejected
+            let (m2, sg2, a2): (Vec<u8>, Option<Signature>, P2PKHAddress) = match kind.as_str() {
+                "m" => (flip_bit(&msg, idx), Some(sg.clone()), a.clone()),
+                "s" => (msg.clone(), Signature::from_compact_bytes(&flip_bit(&sg.to_compact_bytes(None), idx % 520)).ok(), a.clone()),
+                "h" => (msg.clone(), Some(sg.clone()), some!(make_addr(p, &flip_bit(&a.to_pubkey_hash(), idx % 160)))),
+                "c" => (msg.clone(), Some(sg.clone()), some!(own_address(&k.compress_public_key(!c), p))),
                 "k" => {
                     let mut ob = [0u8; 32];
                     ob[24..].copy_from_slice(&i.to_be_bytes());
                     let other = lib!(PrivateKey::from_bytes(&ob)).compress_public_key(c);
-                    let a2 = some!(own_address(&other, p));
-                    show_verify(BSM::verify_message(&msg, &sg, &a2))
+                    (msg.clone(), Some(sg.clone()), some!(own_address(&other, p)))
                 }
-                "p" => {
-                    let a2 = lib!(a.set_chain_params(&chain((i % 256) as u8)));
-                    show_verify(BSM::verify_message(&msg, &sg, &a2))
-                }
-                _ => "BADARG".into(),
+                "p" => (msg.clone(), Some(sg.clone()), lib!(a.set_chain_params(&chain((i % 256) as u8)))),
+                _ => return Some("BADARG".into()),
+            };
+            match sg2 {
+                Some(s2) => format!(
+                    "OK:{};{};{}",
+                    show_v(BSM::verify_message(&m2, &s2, &a2)),
+                    BSM::is_valid_message(&m2, &s2, &a2) as u8,
+                    a2.is_valid_bitcoin_message(&m2, &s2) as u8
+                ),
+                None => "OK:E;0;0".into(),
             }
         }
         _ => return None,
